@@ -175,7 +175,14 @@ def mask_kernel_cases(rng, tier, n_random, inner_cells=4, hmax=3, wmax=3, stride
 def _gen_image(rng, tier):
     # most discriminating first: asymmetric signed kernels, non-square, smallest frames
     for mask, ks in mask_kernel_cases(rng, tier, gens.budget(tier, 800, 6000)):
-        yield {"mask": mask, "kernel": signed_kernel(rng, ks), "image": signed_image(rng, mask.shape),
+        image = signed_image(rng, mask.shape)
+        r = rng.random()
+        if r < 0.3:
+            # a region whose values cancel EXACTLY without being zero: the blurring region (r < 0.15), the unmasked pixels, or both
+            for region, on in ((blurring_region(mask, ks), r < 0.15 or r >= 0.25), (~mask, r >= 0.15)):
+                if on and region.sum() >= 2:
+                    image[region] = gens.cancelling(rng, int(region.sum()))
+        yield {"mask": mask, "kernel": signed_kernel(rng, ks), "image": image,
                "junk": gens.reals(rng, mask.shape, -1e6, 1e6, special=False)}
 
 
